@@ -29,31 +29,78 @@ type rawCall struct {
 	Lease    bool
 }
 
-// backend is the scripted provider.Client behind the real router: it records the id every scoped call carries
-// and answers with the cheapest reply that lets the handler finish.
-type backend struct {
-	mu    sync.Mutex
-	calls []rawCall
+// collector gathers the calls made on behalf of the accounts of one world (one case / one session).
+type collector struct {
+	mu     sync.Mutex
+	calls  []rawCall
+	owners []string
 }
 
-func (b *backend) take() []rawCall {
+func (c *collector) take() []rawCall {
+	c.mu.Lock()
+	defer c.mu.Unlock()
+	out := c.calls
+	c.calls = nil
+	return out
+}
+
+// backend is the scripted provider.Client behind the real router: it records the id every scoped call carries
+// and answers with the cheapest reply that lets the handler finish. Calls are attributed by the owner address in
+// the id they carry; a call whose owner nobody registered (or that is left over when its owner leaves) is an orphan.
+type backend struct {
+	mu      sync.Mutex
+	byOwner map[string]*collector
+	orphans []rawCall
+}
+
+func newBackend() *backend { return &backend{byOwner: map[string]*collector{}} }
+
+func (b *backend) register(owners ...string) *collector {
+	c := &collector{owners: owners}
 	b.mu.Lock()
-	defer b.mu.Unlock()
-	c := b.calls
-	b.calls = nil
+	for _, o := range owners {
+		b.byOwner[o] = c
+	}
+	b.mu.Unlock()
 	return c
 }
 
-func (b *backend) lease(m string, id mtypes.LeaseID) {
+func (b *backend) unregister(c *collector) {
 	b.mu.Lock()
-	b.calls = append(b.calls, rawCall{M: m, Owner: id.Owner, DSeq: id.DSeq, GSeq: id.GSeq, OSeq: id.OSeq, Provider: id.Provider, Lease: true})
+	for _, o := range c.owners {
+		delete(b.byOwner, o)
+	}
+	b.orphans = append(b.orphans, c.take()...)
 	b.mu.Unlock()
 }
 
-func (b *backend) deployment(m string, id dtypes.DeploymentID) {
+func (b *backend) takeOrphans() []rawCall {
 	b.mu.Lock()
-	b.calls = append(b.calls, rawCall{M: m, Owner: id.Owner, DSeq: id.DSeq})
-	b.mu.Unlock()
+	defer b.mu.Unlock()
+	out := b.orphans
+	b.orphans = nil
+	return out
+}
+
+func (b *backend) record(c rawCall) {
+	b.mu.Lock()
+	defer b.mu.Unlock()
+	col := b.byOwner[c.Owner]
+	if col == nil {
+		b.orphans = append(b.orphans, c)
+		return
+	}
+	col.mu.Lock()
+	col.calls = append(col.calls, c)
+	col.mu.Unlock()
+}
+
+func (b *backend) lease(m string, id mtypes.LeaseID) {
+	b.record(rawCall{M: m, Owner: id.Owner, DSeq: id.DSeq, GSeq: id.GSeq, OSeq: id.OSeq, Provider: id.Provider, Lease: true})
+}
+
+func (b *backend) deployment(m string, id dtypes.DeploymentID) {
+	b.record(rawCall{M: m, Owner: id.Owner, DSeq: id.DSeq})
 }
 
 // provider.Client
